@@ -86,7 +86,27 @@ mod x86_64 {
             asm!("pushfq; pop {}", out(reg) r, options(nomem, preserves_flags));
         }
 
+        #[cfg(x86_64_verif)]
+        let r = verif_overlay_if(r);
+
         r
+    }
+
+    /// Verification hook: the interrupt flag as seen by an emulating harness. `pushfq` cannot be
+    /// trapped in user mode and always shows IF=1 there, so under `--cfg x86_64_verif` bit 9 of
+    /// the value read is replaced by this flag (which the harness's `cli`/`sti` emulation drives).
+    #[cfg(x86_64_verif)]
+    pub static VERIF_IF: core::sync::atomic::AtomicBool = core::sync::atomic::AtomicBool::new(true);
+
+    #[cfg(x86_64_verif)]
+    #[inline]
+    fn verif_overlay_if(r: u64) -> u64 {
+        let bit = 1u64 << 9;
+        if VERIF_IF.load(core::sync::atomic::Ordering::SeqCst) {
+            r | bit
+        } else {
+            r & !bit
+        }
     }
 
     /// Writes the RFLAGS register, preserves reserved bits.
